@@ -70,7 +70,8 @@ def main():
     ap.add_argument("--no-baseline", action="store_true")
     ap.add_argument("-j", type=int, default=4)
     a = ap.parse_args()
-    ms = [m for m in load() if a.k in m["name"] and (not a.p or a.p in m["props"])]
+    import re
+    ms = [m for m in load() if re.search(a.k, m["name"]) and (not a.p or a.p in m["props"])]
     bad = 0
     with cf.ThreadPoolExecutor(max_workers=a.j) as ex:
         for r in ex.map(lambda m: run_one(m, a.tier, not a.no_baseline), ms):
